@@ -897,19 +897,35 @@ func (a *analyzer) statePlacement() {
 			}
 		case *ast.IncDecStmt:
 			record(x.X, x)
+		case *ast.CallExpr:
+			// a write the assignment scan does not see: a method call on / delete / clear / copy of a captured
+			// object that was created as a fresh mutable value in an outer scope (closures.go)
+			if id, _ := mutatedByCall(x); id != nil {
+				record(id, x)
+			}
 		}
 		return true
 	})
 }
+
+var factoryTable []FactoryRow
 
 func analyzeFile(path, rel string, out *[]OpFact) error {
 	file, err := parser.ParseFile(fset, path, nil, parser.ParseComments)
 	if err != nil {
 		return err
 	}
+	factoryFiles = append(factoryFiles, file)
 	for _, d := range file.Decls {
 		fd, ok := d.(*ast.FuncDecl)
+		if ok && fd.Body != nil && fd.Recv != nil && !hasCtorCall(fd) {
+			factoryTable = append(factoryTable, factoryRows(fd)...) // methods that return closures (precisionRoundMode)
+		}
 		if !ok || fd.Body == nil || fd.Recv != nil {
+			continue
+		}
+		if !hasCtorCall(fd) {
+			factoryTable = append(factoryTable, factoryRows(fd)...)
 			continue
 		}
 		// every constructor call inside this function is one operator body
@@ -1022,6 +1038,22 @@ func main() {
 		} else {
 			sb.WriteString("\n")
 		}
+	}
+	sb.WriteString("]\n\n/-- closures.go: writes, by a function literal that a helper function returns, to a variable declared in the helper's\n    body (state shared by every use of the returned function): (helper, variable, how, line) -/\ndef factoryStateRows : List (String × String × String × Nat) := [\n")
+	perSub := perSubscriptionHelpers()
+	var shared []FactoryRow
+	for _, r := range factoryTable {
+		if !perSub[r.Fn] {
+			shared = append(shared, r)
+		}
+	}
+	factoryTable = shared
+	for i, r := range factoryTable {
+		sep := ","
+		if i+1 == len(factoryTable) {
+			sep = ""
+		}
+		sb.WriteString(fmt.Sprintf("  (%s, %s, %s, %d)%s\n", leanStr(r.Fn), leanStr(r.Var), leanStr(r.How), r.Line, sep))
 	}
 	sb.WriteString("]\n\nend RoGen.Catalogue\n")
 	if *out != "" {
